@@ -22,7 +22,7 @@ import (
 func init() {
 	special["Throttling"] = func(ctx context.Context, e *env) ([]chan int, []outp) {
 		if e.c.mode == "hist" {
-			ival := time.Duration(e.c.ival) * time.Millisecond
+			ival := time.Duration(e.c.ival) * e.c.unit
 			ctxA, cancelA := context.WithCancel(context.Background())
 			inA := make(chan int)
 			outA := pipe.Throttling(ctxA, inA, 1, ival)
@@ -56,7 +56,7 @@ func init() {
 			e.teardown = append(e.teardown, func() { cancelB(); synctest.Wait() })
 		}
 		in := make(chan int, e.c.cap)
-		out := pipe.Throttling(ctx, in, e.c.ops, time.Duration(e.c.ival)*time.Millisecond)
+		out := pipe.Throttling(ctx, in, e.c.ops, time.Duration(e.c.ival)*e.c.unit)
 		return []chan int{in}, []outp{outInt(out)}
 	}
 }
